@@ -52,7 +52,9 @@ Refs(s, i) == Names(s, i) + (IF s.ty[i] = FTDIR THEN 1 + SubDirs(s, i) ELSE 0)
 \* ---- the rules of the stored count as functions of numbers (ty = type, l = stored count, r = references, sat = saturated before):
 \*      used below on the state record and by the count abstraction Trace_DirNlink.tla on directories with tens of thousands of subdirectories
 WantOf(ty, r) == IF ty = FTDIR /\ r > LinkMax THEN 1 ELSE r
-SaturatedOf(ty, l, r, sat) == ty = FTDIR /\ l = 1 /\ (sat \/ r > LinkMax)
+\* saturation exists only under dir_nlink: without the feature pass 4 reports PR_4_DIR_NLINK_FEATURE for such a directory, so a stored 1
+\* over more than LinkMax references is skew there, not balance (found by the thorough tier: sif links_count 1 + debugfs ln of a directory)
+SaturatedOf(ty, l, r, sat) == DirNlink /\ ty = FTDIR /\ l = 1 /\ (sat \/ r > LinkMax)
 LinksOK(ty, l, r, sat) == l = WantOf(ty, r) \/ SaturatedOf(ty, l, r, sat)
 OverflowAllowed(ty, r) == ty = FTDIR /\ r > LinkMax => DirNlink
 \* mkdir in a parent whose stored count is l: without dir_nlink a directory holds at most LinkMax links and the request is refused
